@@ -648,7 +648,10 @@ func (fx *Fx) chanRecv(st *State, ch Val, n ast.Node) (Val, Val) {
 	}
 	// a value received from a closed, drained channel is the zero value
 	st.assume(fmt.Sprintf("(=> (not %s) (= %s %s))", ok, v, c.zero(el)))
-	st.logEvent(evTerm("Recv", ch.T, c.box(rv), "", ""))
+	// the event records ok (recvok): false means the channel was closed and drained.  (That this implies closed(ch) is
+	// not assumed: the model has no interleaving, so a channel known open at an earlier select would make the branch
+	// that handles the closure look unreachable.)
+	st.logEvent(evTerm("Recv", ch.T, c.box(rv), "", fmt.Sprintf("(ite %s 1 0)", ok)))
 	if _, isNamedT := types.Unalias(el).(*types.Named); isNamedT && fx.spec != nil && len(fx.spec.RecvInv) > 0 {
 		if _, isIf := types.Unalias(el).Underlying().(*types.Interface); !isIf {
 			// a channel of a concrete message type: the declared message invariant is assumed of whatever it delivers
